@@ -517,6 +517,19 @@ def gen_map(tier, seed):
             stats["styles"]["many-segments"] = stats["styles"].get("many-segments", 0) + 1
             fk = "zero" if keys[0] == 0 else "positive" if keys[0] > 0 else "negative"
             stats["first_key"][fk] = stats["first_key"].get(fk, 0) + 1
+        # exactly a multiple of 4096 keys (I/O block sizes, powers of two: seeded change C12e wrote the keys in blocks of 4096
+        # and lost the last block when n was a multiple of the block size)
+        if cfg["kbits"] >= 32 and (tier != "quick" or cfg["epsrec"] > 0):
+            n, d = rng.choice([4096, 8192]), rng.choice([1, 2, 3])
+            k0 = rng.randint(-5000, 5000) if cfg["signed"] else rng.randint(0, 5000)
+            keys = [k0 + (i // d) * 3 for i in range(n)]
+            qs = sorted(set([keys[0], keys[-1], keys[-1] + 1, keys[n // 2], keys[n - 4096], keys[4095], keys[0] - 1 if keys[0] > lo else keys[0]]))
+            cid += 1
+            cases.append("MAP m%d %s %d %d %d %d %d | %s | %s" % (cid, cfg["name"], cfg["kbits"], cfg["signed"], cfg["eps"], cfg["epsrec"], cfg["fdouble"],
+                                                                " ".join(map(str, keys)), " ".join(map(str, qs))))
+            stats["styles"]["block-multiple"] = stats["styles"].get("block-multiple", 0) + 1
+            fk = "zero" if keys[0] == 0 else "positive" if keys[0] > 0 else "negative"
+            stats["first_key"][fk] = stats["first_key"].get(fk, 0) + 1
         if cfg["signed"]:
             # every stored key negative, 0 absent: the predicted position of query 0 is n (one past the last element)
             for j in range(2 if tier == "quick" else 10):
